@@ -20,9 +20,13 @@ EXPLANATION = (
     "can_be_writeable on every path to the dispatch; (6) UnknownNode: rw_uri is stored only where deep_immutable is "
     "false, every ro_uri stored carries the prefix its context requires, strip_prefix_for_ro removes 'imm.' only in an "
     "immutable context; (7) deep_immutable reaches uri.from_string / UnknownNode from create_from_cap and the node "
-    "cache key separates the two contexts. "
+    "cache key separates the two contexts; (8) UnknownNode.__init__, path by path: a cap the path found to carry 'ro.'/'imm.' "
+    "is never stored in rw_uri, the same given cap never ends in both rw_uri and ro_uri, a non-empty rw_uri is never paired "
+    "with a ro_uri found to be alleged-immutable; (9) every value from_string can return is produced by this call's "
+    "guarded parse (directly or through helpers that receive deep_immutable unchanged - (5) is then decided inside the "
+    "helper); a value kept across calls must be looked up and stored under a key that depends on deep_immutable. "
     "Undecided: hash functions behind the derivations (C17), behaviour of node classes built from the caps.")
-TECHNIQUE = "static analysis: def-use dependence of constructor arguments, constant tables cross-checked, CFG dominance / small abstract interpretation in from_string and UnknownNode.__init__"
+TECHNIQUE = "static analysis: def-use dependence of constructor arguments, constant tables cross-checked, CFG dominance / small abstract interpretation (copies of the given caps, prefix/truth facts per path) in from_string and UnknownNode.__init__, provenance of from_string's return values through reaching definitions and helper calls"
 
 URI_MOD = "allmydata.uri"
 SECRET_FOR_RO = {"writekey"}
@@ -908,6 +912,9 @@ def run(ctx: Context):
                     f = plain.cmp(n.ast, pol)
                     if f and f[0] in ("truth", "false") and isinstance(n.ast, (ast.Name, ast.Attribute)):
                         subj, kind = toks(vals, n.ast), "truth"
+                    elif f and f[0] == "is" and "None" in f[1:] and isinstance(n.ast, ast.Compare) \
+                            and isinstance(n.ast.left, (ast.Name, ast.Attribute)):
+                        subj, kind, pol = toks(vals, n.ast.left), "truth", False      # `x is None` holds on this edge
                 if subj is not None and len(subj) == 1:
                     facts = add_fact(facts, (next(iter(subj)), kind, pol))
                     if facts is None:
